@@ -1,4 +1,5 @@
 """C14 (history property; see DESIGN.md section 5)."""
+import gen
 from props.hist_base import HistPlugin
 
 
@@ -13,3 +14,10 @@ class Plugin(HistPlugin):
             'operation; distinct by canonical JSON.')
     FINDING_BITS = 2 | 8
     UNDECIDED_BITS = 1 | 4
+
+    def gen_case(self, rng, i, tier):
+        gen.TINY[0] = rng.random() < 0.7
+        try:
+            return HistPlugin.gen_case(self, rng, i, tier)
+        finally:
+            gen.TINY[0] = False
